@@ -27,9 +27,10 @@ from .. import sysgen, sysinterp
 from ..framework import lean_driver, canon
 from ..sysinterp import ApiRaised, Stuck, api
 from . import C09 as c09
+from . import C10 as c10gen
 
 PROP = "C01"
-LEAN_TARGETS = ["Eliot.Properties.C01"]
+LEAN_TARGETS = ["Eliot.Properties.C01", "Eliot.Properties.C01View"]
 AUDIT = "Eliot/Audit/C01.lean"
 THEOREMS = [
     "Sys.Emit.execS_emits", "Sys.Emit.execB_emits", "Sys.Emit.execB_top", "Sys.Emit.F.proj", "Sys.Emit.denB_range",
@@ -37,7 +38,7 @@ THEOREMS = [
     "Sys.C01.roundtrip_lines", "Sys.C01.JsonView.codec_ok", "Sys.C01.roundtrip_file",
     "Sys.C01.extracted_fields", "Sys.Emit.extOf_nearest",
     "Sys.execB_vars", "Sys.Emit.execX_emits", "Sys.Emit.execX_top", "Sys.C01.explicit_node", "Sys.C01.explicit_same_as_with",
-    "Sys.C01.handle_same_as_with",
+    "Sys.C01.handle_same_as_with", "Sys.C01.tagView_faithful", "Sys.C01.exStage_ok",
 ]
 RULE = ("structured logging programs from harness/sysgen.py (profile: no explicit handles / remote ids, no failing serializers or "
         "destinations, destinations [recording, binary FileDestination, text FileDestination] registered first, typed actions and "
@@ -47,8 +48,13 @@ RULE = ("structured logging programs from harness/sysgen.py (profile: no explici
         "30% return a key eliot sets itself: reason / exception / traceback), batch E = batch B's programs with 70% of the with-blocks rewritten to go through a handle: "
         "`x = start_action(..)`; one or two `with x.context():` / `x.run(..)` segments; `x.finish()` (60%) or `x.finish(exc)` (40%) when the "
         "body ends normally, else `x = start_action(..)`; `with x: body`; leading messages / add_success_fields of the body may go "
-        "through the handle (`x.log`, `Message.log(action=x)`, `x.add_success_fields`), extra `x.log` messages between segments - all three "
-        "batches inside the theorems' fragment (a Python mirror of Block.structured counts every case: in_theorems_fragment); every program is parsed in emission order, reversed and 2 (quick) / 4 (thorough) seeded shuffles; non-trivial = depth "
+        "through the handle (`x.log`, `Message.log(action=x)`, `x.add_success_fields`), extra `x.log` messages between segments - batches A, B, E "
+        "inside the theorems' quantifier (a Python mirror of Block.structured + wf + clean + EnvOK - no failing serializer / extractor / "
+        "registered destination; serializer outputs carry their call number on both sides - counts every case: in_theorems_fragment); "
+        "batch V (oracle only, no model tie) = batch E's programs with 60% of all field values (start / success / message / extractor "
+        "fields, log_call results) drawn from C10's generator of JSON-native values (None, bools, ints to the 64-bit edges, floats incl. "
+        "subnormals and -0.0, strings with controls / escapes / astral characters / empty, nested lists, tuples, dicts) and half of the "
+        "untyped with-blocks turned into calls of @log_call functions (action_type given or derived, include_args, include_result); every program is parsed in emission order, reversed and 2 (quick) / 4 (thorough) seeded shuffles; non-trivial = depth "
         ">= 2, >= 6 messages, >= 1 failed action and (typed field or task inside an action); distinct by canonical hash of the program")
 TRUSTED = ["uuid4() does not collide (a counter in the harness, as in the model)", "time.time() is replaced by a counter (timestamps never compared otherwise)",
            "json.loads (CPython) reads what orjson wrote (C10 states the codec laws on the model; here the real pair is exercised on every line)",
@@ -60,12 +66,19 @@ ASSUMPTIONS = ["structured programs: with-blocks, messages, add_success_fields o
                "order would no longer be depth-first); "
                "other uses of handles and serialize_task_id+continue_task are covered by C02/C04/C06, not here",
                "registered destinations never raise (a raising one adds eliot:destination_failure messages to the current action: C08)",
-               "field serializers do not raise and no declared field is missing (else eliot:serialization_failure replaces the message: C13)",
+               "field serializers do not raise (their output may depend on the call number - the harness's tag theirs with it) and no declared field is "
+               "missing (else eliot:serialization_failure replaces the message: C13)",
                "registered exception extractors do not raise (a raising one makes eliot log an eliot:traceback of its own: C07); they may return any fields, "
                "eliot's own exception/reason/action_status (traceback message: reason/traceback/exception) win on a key clash; an extractor must not return "
                "action_type/action_status if write_traceback is used (Sys.Emit.extClean: the parser would read the traceback message as an action's end)",
-               "field names avoid task_uuid/task_level/timestamp/action_type/action_status; field values are JSON-native (ints, strings, lists/dicts of them)",
-               "the link FV -> JSON used by roundtrip_file is the hypothesis structure JsonView.Faithful (lower/native/distinct keys/invertible), not derived from the core model",
+               "field names avoid task_uuid/task_level/timestamp/action_type/action_status; field values are JSON-native: small ints, strings and opaque "
+               "objects where the model is tied (batches A, B, E), every JSON-native value except NaN / infinities (orjson writes null: C10) in the "
+               "oracle-only batch V - the core model does not model values, so the theorems say 'the value logged' and batch V checks it end to end",
+               "log_call is not a construct of the core language (Model/LogCall.lean + C18 tie it to start_action/add_success_fields/finish); here it is "
+               "exercised by the model-free tree oracle only (batch V)",
+               "the link FV -> JSON used by roundtrip_file is the hypothesis structure JsonView.Faithful (lower/native/distinct keys/depth/invertible), not "
+               "derived from the core model; Properties/C01View.lean gives a concrete tagging view that is faithful on every dict with distinct keys and "
+               "64-bit numbers (tagView_faithful) and applies roundtrip_file to the 14 dicts the example program stages",
                "no global fields, destinations registered before the program starts"]
 EXPLANATION = ("emission lemma (structured block inside an action stages exactly the dicts of its denotation, by mutual induction over Stmt/Block on "
                "the shared core model; a third mutual theorem carries the invariant of an explicitly spelled action while it is open, its node is "
@@ -152,7 +165,7 @@ def stmt_raises(s):
     op = s["op"]
     if op == "raise":
         return True
-    if op in ("with", "withHandle", "inContext", "runIn"):
+    if op in ("with", "withHandle", "inContext", "runIn", "logCall"):
         return block_raises(s["body"])
     if op == "try":
         return block_raises(s["body"]) and block_raises(s["handler"])
@@ -212,6 +225,90 @@ def explicit_spelling(case, rng, n_exc):
         return out
 
     return dict(case, prog=walk(case["prog"]))
+
+
+# ---- oracle-only stream: every JSON-representable field value, and @log_call ------------------
+
+NATIVE = dict(rich=0.0, bad=0.0, ext=False)
+
+
+def _finite(t):
+    if t["t"] == "float":
+        return t["hex"] not in ("nan", "inf", "-inf")
+    if t["t"] == "list":
+        return all(_finite(x) for x in t["v"])
+    if t["t"] == "dict":
+        return all(_finite(v) for _, v in t["v"])
+    return True
+
+
+def rich_value(rng):
+    """a field value from C10's generator of JSON-native values (None, bools, ints up to the 64-bit edges, floats incl. subnormals
+    and -0.0, strings with controls / escapes / astral characters / empty, nested lists, tuples and dicts); NaN and the infinities
+    are left out (orjson writes them as null: C10's business)"""
+    while True:
+        t = c10gen.g_value(rng, NATIVE, rng.choice([0, 0, 0, 1, 2, 3]))
+        if _finite(t):
+            return {"j": t}
+
+
+def rich_values(case, rng):
+    def fields(fs):
+        return [[k, rich_value(rng) if rng.random() < 0.6 else v] for k, v in fs]
+
+    def walk(block):
+        out = []
+        for s in block:
+            s = dict(s)
+            for k in ("body", "handler"):
+                if k in s:
+                    s[k] = walk(s[k])
+            if "spec" in s:
+                s["spec"] = dict(s["spec"], fields=fields(s["spec"]["fields"]))
+            if "ms" in s:
+                s["ms"] = dict(s["ms"], fields=fields(s["ms"]["fields"]))
+            if "fs" in s:
+                s["fs"] = fields(s["fs"])
+            if "args" in s:
+                s["args"] = fields(s["args"])
+            if s.get("result") is not None:
+                s["result"] = rich_value(rng)
+            out.append(s)
+        return out
+
+    env = dict(case["env"], extractors=[dict(e, fields=fields(e["fields"])) for e in case["env"]["extractors"]])
+    return dict(env=env, prog=walk(case["prog"]))
+
+
+def add_log_calls(case, rng):
+    """Turn some untyped `with start_action(..): body` blocks into calls of a function decorated with @log_call whose arguments are the
+    start fields and whose body is `body` (then `return result`)."""
+    n = [0]
+
+    def walk(block):
+        out = []
+        for s in block:
+            s = dict(s)
+            for k in ("body", "handler"):
+                if k in s:
+                    s[k] = walk(s[k])
+            if s["op"] == "with" and not s["task"] and not s["spec"].get("sers") and rng.random() < 0.5:
+                n[0] += 1
+                args = s["spec"]["fields"]
+                incl = None if rng.random() < 0.6 else [k for k, _ in args if rng.random() < 0.5]
+                s = dict(op="logCall", name="f%d" % n[0], atype=(s["spec"]["atype"] if rng.random() < 0.5 else None), args=args,
+                         include_args=incl, include_result=rng.random() < 0.7, result={"n": n[0]}, body=s["body"])
+            out.append(s)
+        return out
+
+    return dict(case, prog=walk(case["prog"]))
+
+
+def gen_values(rng, profile):
+    case = normalise(sysgen.gen_case(rng, profile))
+    case = add_log_calls(case, rng)
+    case = explicit_spelling(case, rng, len(case["env"]["excs"]))
+    return rich_values(case, rng)
 
 
 # ---- the theorems' fragment, syntactically (mirror of Block.structured / Block.structuredX in Proofs/SysEmit.lean) ----
@@ -280,10 +377,18 @@ class RT(sysinterp.Runtime):
 
         return ser
 
+    def value(self, fv):
+        if "j" in fv:
+            return c10gen.build(fv["j"])  # a fresh object on every use
+        return super().value(fv)
+
     def canon_plain(self, v):
         if isinstance(v, dict) and set(v) == {"ser"} and isinstance(v["ser"], list) and len(v["ser"]) == 3:
             return {"ser": [v["ser"][0], v["ser"][1], self.canon_plain(v["ser"][2])]}
-        return super().canon_plain(v)
+        try:
+            return super().canon_plain(v)
+        except TypeError:  # a tuple holding a list (oracle-only values): not hashable
+            return {"py": repr(v)[:200]}
 
     def dest(self, d):
         import eliot
@@ -353,6 +458,53 @@ class Oracle:
         for s in block:
             self.stmt(s)
 
+    def log_call(self, s):
+        """call a function decorated with @eliot.log_call whose body is the block `s["body"]`"""
+        import eliot
+
+        rt = self.rt
+        kw = rt.kwargs(s["args"])
+        result = rt.value(s["result"])
+        started = dict(kw) if s["include_args"] is None else {k: kw[k] for k in s["include_args"]}
+        state = {}
+
+        def body():
+            # the decorator has started its action by now: its node goes where the action went
+            node = dict(kind="action", atype=s["atype"] if s["atype"] is not None else "c01prog.%s" % s["name"], start=started, children=[], succ={}, status=None, end=None)
+            self.attach(node)
+            self.stack.append(node)
+            state["node"] = node
+            state["depth"] = len(self.stack)
+            self.block(s["body"])
+            return result
+
+        ns = {"__name__": "c01prog", "_body": body}
+        exec("def %s(%s):\n    return _body()\n" % (s["name"], ", ".join(kw)), ns)
+        f = api(rt, "log_call", eliot.log_call, ns[s["name"]], action_type=s["atype"], include_args=s["include_args"],
+                include_result=s["include_result"])
+        exc = None
+        try:
+            got = f(**kw)
+        except (ApiRaised, Stuck):
+            raise
+        except BaseException as e:  # noqa
+            exc = e
+        node = state.get("node")
+        if node is None:
+            if exc is not None:
+                raise ApiRaised("log_call wrapper raised before calling the function: %s" % type(exc).__name__)
+            raise ApiRaised("log_call wrapper did not call the function")
+        del self.stack[state["depth"] - 1:]
+        if exc is None:
+            if got is not result:
+                rt.notes.append("log_call did not return the function's result")
+            node["status"] = "succeeded"
+            node["end"] = dict(node["succ"], **({"result": result} if s["include_result"] else {}))
+        else:
+            node["status"] = "failed"
+            node["end"] = dict(self.extracted(exc), exception=qualname(type(exc)), reason=safe_str(exc))
+            raise exc
+
     def with_block(self, a, node, sers, body):
         """`with a: body` on the action `a` (just created, or held in a handle) whose node is `node`."""
         rt = self.rt
@@ -398,6 +550,8 @@ class Oracle:
             if s["x"] not in self.handles:
                 raise Stuck()
             self.with_block(*self.handles[s["x"]], s["body"])
+        elif op == "logCall":
+            self.log_call(s)
         elif op == "logTo":
             if s["x"] not in self.handles:
                 raise Stuck()
@@ -608,12 +762,18 @@ def parse_all(dicts):
         return None, "%s: %s" % (type(e).__name__, str(e)[:200])
 
 
+def same_value(logged, loaded):
+    """the value read back from the log is the value logged: same JSON type at every level (True is not 1, 1 is not 1.0), floats
+    bit for bit, tuples as lists, dict members in order"""
+    return c10gen.matches(c10gen.expected(logged, False), c10gen.loaded_canon(loaded))
+
+
 def cmp_value(exp, got, ks, where):
     if isinstance(exp, tuple) and exp and exp[0] == "typed":
         if not (isinstance(got, dict) and set(got) == {"ser"} and isinstance(got["ser"], list) and len(got["ser"]) == 3):
             return "%s: typed field is %r, not the output of its serializer" % (where, got)
         sid, k, v = got["ser"]
-        if sid != exp[1] or v != exp[2]:
+        if sid != exp[1] or not same_value(exp[2], v):
             return "%s: typed field went through serializer %r on %r, expected serializer %r on %r" % (where, sid, v, exp[1], exp[2])
         if k in ks:
             return "%s: serializer call %r appears twice in the log" % (where, k)
@@ -623,8 +783,8 @@ def cmp_value(exp, got, ks, where):
         if not (isinstance(got, str) and exp[1] in got):
             return "%s: traceback text %r does not mention %s" % (where, str(got)[:80], exp[1])
         return None
-    if exp != got or type(exp) is not type(got):
-        return "%s: value %r, expected %r" % (where, got, exp)
+    if not same_value(exp, got):
+        return "%s: value %s, expected %s" % (where, repr(got)[:200], repr(exp)[:200])
     return None
 
 
@@ -781,8 +941,45 @@ def orders_for(ctx, case, n):
     return out
 
 
-def check_cases(ctx, cases, batch):
-    sys_model = lean_driver("Driver/Sys.lean", cases)
+def in_fragment(case):
+    """Is the case inside the quantifier of the theorems (Sys.C01.roundtrip ...)?  The program: destinations registered first,
+    then Block.structured; every declared (typed) field of a start message / message is there (`wf`; success fields are added by
+    normalise), no field is called like a key the parser reads (`clean`).  The environment (EnvOK): no serializer, no extractor and
+    none of the registered destinations ever raises (serializer / extractor results may depend on the call number); an extractor
+    returns no action_type / action_status (extClean)."""
+    prog, env = case["prog"], case["env"]
+    if not prog or prog[0]["op"] != "addDests" or not structured(prog[1:], False, False):
+        return False
+    if env["serFail"] or any(e["failAt"] for e in env["extractors"]) or any(d in prog[0]["ds"] for d, _, _ in env["destFail"]):
+        return False
+    reserved = ("task_uuid", "task_level", "timestamp", "action_type", "action_status")
+    if any(k in reserved for e in env["extractors"] for k, _ in e["fields"]):
+        return False
+
+    def fields_ok(block):
+        for s in block:
+            for k in ("body", "handler"):
+                if not fields_ok(s.get(k, [])):
+                    return False
+            sp, ms = s.get("spec"), s.get("ms")
+            if sp is not None:
+                have = [k for k, _ in sp["fields"]]
+                if any(k in reserved for k in have) or any(k not in have for k, _ in ((sp.get("sers") or {}).get("start") or [])):
+                    return False
+            if ms is not None:
+                have = [k for k, _ in ms["fields"]]
+                if any(k in reserved for k in have) or any(k not in have for k, _ in (ms.get("sers") or [])):
+                    return False
+            if any(k in reserved for k, _ in s.get("fs", [])):
+                return False
+        return True
+
+    return fields_ok(prog[1:])
+
+
+def check_cases(ctx, cases, batch, model=True):
+    """`model=False`: oracle-only cases (field values / API spellings the core model does not have): no tie with Driver/Sys."""
+    sys_model = lean_driver("Driver/Sys.lean", cases) if model else [None] * len(cases)
     runs = []
     with tempfile.TemporaryDirectory(prefix="c01-") as top:
         for n, case in enumerate(cases):
@@ -803,13 +1000,14 @@ def check_cases(ctx, cases, batch):
         ctx.case(case, nontrivial=(st["depth"] >= 2 and nlines >= 6 and failed >= 1 and typed >= 1),
                  tags=["batch:" + batch, "depth:%d" % min(st["depth"], 6), "trees:%d" % min(len(trees), 6)] + ["op:" + o for o in st["ops"]],
                  sample=(st["stmts"] <= 10))
-        ctx.count("in_theorems_fragment" if case["prog"][0]["op"] == "addDests" and structured(case["prog"][1:], False, False)
-                  else "outside_theorems_fragment")
+        ctx.count("oracle_only" if not model else "in_theorems_fragment" if in_fragment(case) else "outside_theorems_fragment")
         ctx.count("messages", n=nlines)
         ctx.count("orders_parsed", n=len(orders))
         # --- tie 1: core model vs real destinations (recording, binary file, text file)
         name = "correspondence:sys-model"
-        if "bad" in mo:
+        if not model:
+            pass
+        elif "bad" in mo:
             ctx.broken_tie(name, "model driver rejected the case: %s" % mo["bad"], case)
         elif mo.get("outcome") == "stuck":
             ctx.broken_tie(name, "model is stuck on a structured program", case)
@@ -862,12 +1060,13 @@ def check_cases(ctx, cases, batch):
 def run(ctx):
     n = ctx.budget(300, 10000)
     chunk = 500
-    for batch, profile, share, make in (("A", PROFILE_A, 0.5, gen), ("B", PROFILE_B, 0.2, gen), ("E", PROFILE_B, 0.3, gen_explicit)):
+    for batch, profile, share, make in (("A", PROFILE_A, 0.4, gen), ("B", PROFILE_B, 0.15, gen), ("E", PROFILE_B, 0.25, gen_explicit),
+                                        ("V", PROFILE_B, 0.2, gen_values)):
         rng = ctx.rng("gen" + batch)
         todo = int(n * share)
         while todo > 0:
             k = min(chunk, todo)
-            check_cases(ctx, [make(rng, profile) for _ in range(k)], batch)
+            check_cases(ctx, [make(rng, profile) for _ in range(k)], batch, model=(batch != "V"))
             todo -= k
     for name, what in (("correspondence:sys-model", "real destinations (recording, binary and text FileDestination read back with json.loads) received exactly the dicts the core model stages; same outcome"),
                        ("correspondence:parser-model", "real eliot.parse.Parser and the trie model agree after every add, on every order")):
@@ -875,7 +1074,15 @@ def run(ctx):
             ctx.obligation(name, "correspondence", True, what)
 
 
+def oracle_only(case):
+    def walk(block):
+        return any(s["op"] == "logCall" or any("j" in v for fs in (s.get("fs", []), s.get("args", []), (s.get("spec") or {}).get("fields", []),
+                                                                   (s.get("ms") or {}).get("fields", [])) for _, v in fs)
+                   or walk(s.get("body", [])) or walk(s.get("handler", [])) for s in block)
+    return walk(case["prog"]) or any("j" in v for e in case["env"]["extractors"] for _, v in e["fields"])
+
+
 def replay(ctx, obj):
     case = obj["case"]
-    res = check_cases(ctx, [case], "replay")
+    res = check_cases(ctx, [case], "replay", model=not oracle_only(case))
     print("oracle held" if all(res) else "oracle failed")
